@@ -133,12 +133,114 @@ def bases(draw):
     return dict(game=draw(games.any_games(min_states=2, max_states=7, max_actions=3)))
 
 
+def reference_valid(g):
+    """Independent statement of the documented well-formedness rules (R1-R11) on a description whose
+    four fields are lists.  Returns None if well-formed, else the first broken rule."""
+    players, rewards, tl, finals = g["players"], g["rewards"], g["transition_list"], g["final_states"]
+    n = len(players)
+    if len(tl) != n or len(rewards) != n:
+        return "R1"
+    if any(r < 0 for r in rewards):
+        return "R2"
+    if any(p not in (P1, P2, PR) for p in players):
+        return "R3"
+    if not finals:
+        return "R11"
+    if any(f < 0 or f >= n for f in finals):
+        return "R4"
+    for s in range(n):
+        lst = tl[s]
+        if not isinstance(lst, list):
+            return "R6" if not lst else "R7"
+        if not lst:
+            return "R6"
+        for e in lst:
+            if not isinstance(e, tuple) or len(e) != 2:
+                return "R7"
+            lab, t = e
+            if players[s] == PR:
+                if isinstance(lab, bool) or not isinstance(lab, (int, float)):
+                    return "R9"
+            elif not isinstance(lab, str):
+                return "R8"
+            if isinstance(t, bool) or not isinstance(t, int):
+                return "R10"
+            if t < 0 or t >= n:
+                return "R5"
+    return None
+
+
+@st.composite
+def multi_fault(draw):
+    """A base game with 0-4 faults applied one after the other (each drawn from the enumerator's
+    list for the CURRENT description when it still has the shape the enumerator needs)."""
+    g = draw(games.any_games(min_states=2, max_states=6, max_actions=3))
+    k = draw(st.integers(0, 4))
+    applied = []
+    for _ in range(k):
+        try:
+            fl = list(faults(g))
+        except Exception:
+            break                      # the description no longer has the shape the enumerator walks
+        if not fl:
+            break
+        rules = sorted({f[0] for f in fl})
+        rule = draw(st.sampled_from(rules))
+        idxs = [j for j, f in enumerate(fl) if f[0] == rule]
+        i = idxs[draw(st.integers(0, len(idxs) - 1))]
+        applied.append([fl[i][0], fl[i][1], fl[i][2]])
+        g = fl[i][4]
+    return dict(multi=g, applied=applied)
+
+
 def phases(tier):
     return [Phase("fault-enumeration-per-base-game", strategy=bases, examples=(120, 4000),
-                  note="every known single-rule fault at every position of each base game")]
+                  note="every known single-rule fault at every position of each base game"),
+            Phase("multi-fault-differential-validation", strategy=multi_fault, examples=(1500, 60000),
+                  note="0-4 stacked faults; acceptance compared with an independent statement of the rules")]
+
+
+def check_multi(case):
+    """DIFF against the reference validator, both directions: a description the rules accept must be
+    accepted by validation (check_game + init_states), one they reject must make solve() raise ValueError."""
+    v = Verdict()
+    r = repo()
+    g = case["multi"]
+    try:
+        verdict = reference_valid(g)
+    except Exception:
+        v.inconclusive = "stacked faults left the documented rule space (reference validator not applicable)"
+        return v
+    v.cls("stacked_faults=%d" % len(case["applied"]), "reference_" + ("accepts" if verdict is None else "rejects"))
+    v.nontrivial = len(case["applied"]) >= 2 or verdict is None
+    if verdict is not None:
+        v.cls("first_broken_" + verdict)
+    with sweep_budget(r.tad, 3000, max(4, len(g["players"])), extra_modules=(r.conditionalrewards,)):
+        if verdict is None:
+            try:
+                sg = r.tad.StochasticGame(**copy.deepcopy(g))
+                sg.check_game()
+                sg.init_states()
+            except Exception as e:
+                v.fail("well-formed-game-rejected", f"the documented rules accept {g} (faults applied: "
+                                                    f"{case['applied']}) but validation raised {type(e).__name__}: {e}",
+                       sig=type(e).__name__)
+            return v
+        for prune in (True, False):
+            kind, x = run_solve(r.tad, g, prune)
+            if kind == "returned":
+                v.fail("malformed-game-solved", f"rule {verdict} is broken in {g} (faults applied: {case['applied']}) "
+                                                f"but solve(prune={prune}) returned", sig=verdict)
+            elif kind == "other":
+                v.fail("wrong-exception-type", f"rule {verdict} is broken in {g} (faults applied: {case['applied']}): "
+                                               f"solve(prune={prune}) raised {type(x).__name__}: {str(x)[:100]}",
+                       sig=f"{verdict}:{type(x).__name__}")
+    return v
 
 
 def sample_view(case):
+    if "multi" in case:
+        return case
     g = case["game"]
     fl = list(faults(g))
     return dict(base_game=g, n_faults=len(fl), example_faults=[dict(rule=r, at=p, value=val) for r, p, val, _, _ in fl[::max(1, len(fl) // 6)]][:6]) \
@@ -205,6 +307,8 @@ def judge_fault(v, r, rule, pos, val, g, idx, base):
 
 
 def check_case(case):
+    if "multi" in case:
+        return check_multi(case)
     v = Verdict()
     r = repo()
     base = case["game"]
